@@ -42,4 +42,30 @@ theorem traversal_source_is_modelled :
       ["range v.children", "return vx"] := by
   decide
 
+/-- **round 5 — the glue around `walk`** (`graph/services.go`, `graph/graph.go`, `graph/cycle.go`), regenerated on every
+run, is the code `Model/TravProj.lean` / `Model/DepGraph.lean` were written against:
+
+* `CollectInDependencyOrder`: `newGraph`, error ⇒ return before anything else (`Plan.refused`), `newTraversal`, the
+  options applied in order, `walk` (`Plan.empty` / `Plan.walk`), `return t.results, err`;
+* `newGraph`: a vertex per entry of `project.Services`; per `depends_on` entry: not an enabled service ⇒ required ⇒
+  "disabled" if in `DisabledServices` else "unknown" (`scanDeps`), optional ⇒ no edge; otherwise both
+  `src.children[dep] = dest` **and** `dest.parents[name] = src` (`children` / `parents`, `mem_parents_iff`); then `checkCycle`;
+* `roots` / `leaves`: vertices without parents / without children (`extremities`: `pre = []`);
+* `checkCycle` / `searchCycle`: a search from every vertex in name order; a child found on the current path is a cycle,
+  otherwise descend with the path extended (`DepGraph.searchCycle`: no visited set, no pruning). -/
+theorem glue_source_is_modelled :
+    CV.Gen.c13_CollectInDependencyOrder =
+      ["newGraph", "if err != nil", "return nil, err", "newTraversal", "range options", "option", "err = walk(ctx, graph, t)", "walk", "return t.results, err"] ∧
+    CV.Gen.c13_newGraph =
+      ["range project.Services", "g.addVertex", "range project.Services", "src := g.vertices[name]", "range s.DependsOn", "if !ok", "if condition.Required", "if ds, exists := project.DisabledServices[dep]; exists", "return nil, fmt.Errorf(\"service %q is required by %q but is disabled. Can be enabled by profiles %s\", dep, name, ds.Profiles)", "fmt.Errorf", "return nil, fmt.Errorf(\"service %q depends on unknown service %q\", name, dep)", "fmt.Errorf", "src.children[dep] = dest", "dest.parents[name] = src", "err := g.checkCycle()", "g.checkCycle", "return g, err"] ∧
+    CV.Gen.c13_roots =
+      ["range g.vertices", "if len(v.parents) == 0", "res = append(res, v)", "append", "return res"] ∧
+    CV.Gen.c13_leaves =
+      ["range g.vertices", "if len(v.children) == 0", "res = append(res, v)", "append", "return res"] ∧
+    CV.Gen.c13_checkCycle =
+      ["names := utils.MapKeys(g.vertices)", "utils.MapKeys", "range names", "err := searchCycle([]string{name}, g.vertices[name])", "searchCycle", "if err != nil", "return err", "return nil"] ∧
+    CV.Gen.c13_searchCycle =
+      ["names := utils.MapKeys(v.children)", "utils.MapKeys", "range names", "if i := slices.Index(path, name); i >= 0", "slices.Index", "return fmt.Errorf(\"dependency cycle detected: %s -> %s\", strings.Join(path[i:], \" -> \"), name)", "fmt.Errorf", "ch := v.children[name]", "err := searchCycle(append(path, name), ch)", "searchCycle", "append", "if err != nil", "return err", "return nil"] := by
+  decide
+
 end CV.Trav
